@@ -844,6 +844,19 @@ where
     pub fn remove(&mut self, entity_identifier: entity::Identifier) {
         // Get location of entity.
         if let Some(location) = self.entity_allocator.get(entity_identifier) {
+            // Free slot in entity allocator.
+            //
+            // This is done before the row is removed: removing the row runs the destructors of
+            // the entity's components, and should one of those panic, the identifier must not be
+            // left resolving to a row that no longer exists.
+            // SAFETY: It was verified above that `self.entity_allocator` contains a valid slot for
+            // `entity_identifier`.
+            unsafe {
+                self.entity_allocator.free_unchecked(entity_identifier);
+            }
+
+            self.len -= 1;
+
             // Remove row from Archetype.
             // SAFETY: `self.entity_allocator` contains entries for the entities stored in this
             // world's archetypes. Also, `location.index` is invariantly guaranteed to be a valid
@@ -853,14 +866,6 @@ where
                     .get_unchecked_mut(location.identifier)
                     .remove_row_unchecked(location.index, &mut self.entity_allocator);
             }
-            // Free slot in entity allocator.
-            // SAFETY: It was verified above that `self.entity_allocator` contains a valid slot for
-            // `entity_identifier`.
-            unsafe {
-                self.entity_allocator.free_unchecked(entity_identifier);
-            }
-
-            self.len -= 1;
         }
     }
 
